@@ -21,6 +21,9 @@ def lib_run(pid, tier, name, src, variants, bounds, expected_configs_per_variant
             if l[0] == "COMPILE-ERROR":
                 rep.violation(v.compile_sig or ("explorer-compile-error:" + cxx.cell_name(v.cell)),
                               {"variant": v.tag, "msg": "explorer does not compile against the tree: " + l[1][-1200:]})
+            elif l[0] == "COMPILE-ERROR-CONSTEXPR":
+                rep.violation("constexpr-table:static-assert-or-not-constant:" + cxx.cell_name(v.cell),
+                              {"variant": v.tag, "msg": "the static_assert table does not compile against the tree: " + l[1][-1200:]})
             elif l[0] == "RUN-ERROR":
                 rep.harness_error("%s: %s" % (v.tag, l[1:]))
             elif l[0] == "STATS":
@@ -35,7 +38,7 @@ def lib_run(pid, tier, name, src, variants, bounds, expected_configs_per_variant
                     rep.sample({"config": l[1], "stats": kv})
         configs += nconf
         if expected_configs_per_variant is not None and nconf != expected_configs_per_variant \
-                and not any(l[0] in ("COMPILE-ERROR", "RUN-ERROR") for l in lines):
+                and not any(l[0] in ("COMPILE-ERROR", "COMPILE-ERROR-CONSTEXPR", "RUN-ERROR") for l in lines):
             rep.harness_error("%s: expected %d configurations, saw %d" % (v.tag, expected_configs_per_variant, nconf))
         if fails:
             v2, lines2, _ = libcheck.rerun(name, src, v)
